@@ -25,6 +25,7 @@ ASSUMPTIONS = ["writers mutate only inside `with tree:`"]
 
 SENTINEL = "SENTINEL-C18"
 WAIT = 0.25
+LONG_HOLD = 4.5
 
 
 def make_tree(typed, t=None):
@@ -125,8 +126,8 @@ def controlled_schedule(typed, opname, out, wait=WAIT, mode="sentinel"):
     tb = threading.Thread(target=thread_b, daemon=True)
     ta.start()
     tb.start()
-    ta.join(timeout=3)
-    tb.join(timeout=3)
+    ta.join(timeout=wait + 3)
+    tb.join(timeout=wait + 3)
     hung = ta.is_alive() or tb.is_alive()
     snap = res.get("snapshot")
     text = json.dumps(snap, default=str) if snap is not None else ""
@@ -485,6 +486,16 @@ def run(ctx):
             out.dist["reader-first:" + opname] += 1
             for p in problems:
                 out.fail(case, f"[{'TypedTree' if typed else 'Tree'}.{opname}, reader first] {p}; event order {events}")
+        if ctx.thorough:
+            # long critical section (thorough tier, and the search after a broken lock obligation): a lock attempt that gives up
+            # after a while (acquire(timeout=...)) lets the reader in while the writer is still inside
+            for opname in ("with tree", "to_dict_list"):
+                events, problems = controlled_schedule(typed, opname, out, wait=LONG_HOLD)
+                out.count((typed, opname, "long-hold"), True)
+                out.dist["long-hold:" + opname] += 1
+                for p in problems:
+                    out.fail(dict(kind="schedule", typed=typed, op=opname, events=events, hold=LONG_HOLD),
+                             f"[{'TypedTree' if typed else 'Tree'}.{opname}, critical section of {LONG_HOLD} s] {p}; event order {events}")
         n_pts, problems = enter_preemptions(typed)
         out.count((typed, "enter-preemptions"), True)
         out.dist["enter_preemption_points"] += n_pts
@@ -508,7 +519,7 @@ def replay(ctx, rp):
     case = rp["case"]
     out = core.Outcome()
     if case.get("kind") == "schedule":
-        events, problems = controlled_schedule(case["typed"], case["op"], out, mode=case.get("mode", "sentinel"))
+        events, problems = controlled_schedule(case["typed"], case["op"], out, mode=case.get("mode", "sentinel"), wait=case.get("hold", WAIT))
         return dict(events=events, problems=problems, property_holds=not problems)
     if case.get("kind") == "enter-preemption":
         n, problems = enter_preemptions(case["typed"])
